@@ -56,7 +56,7 @@ class Contract:
             raise TypeError(f"unknown contract fields for {key}: {sorted(kw)}")
 
 
-TRACE_FNS = ("call_arg(", "called(", "call_result(", "called_before(", "last_call_is(", "ncalled(", "caught(", "last_result_truthy(", "AllFileStepsOn(", "nfilesteps(")
+TRACE_FNS = ("call_arg(", "called(", "call_result(", "called_before(", "last_call_is(", "ncalled(", "caught(", "last_result_truthy(", "AllFileStepsOn(", "nfilesteps(", "call_arg_ext(", "call_result_ext(", "OldData(", "MergedFrom(", "Saved(", "NewData(")
 
 
 def _is_trace(text):
@@ -86,6 +86,7 @@ class Registry:
         self.inert_methods = set()  # method names dropped whatever the receiver (pbar.update, ...)
         self.identity_calls = set() # inert wrappers that return their first argument (progbar(it))
         self.impure_props = set()   # property names whose getters have effects (hoisted as calls)
+        self.opaque_mutable_attrs = set()   # attributes of unmodelled library objects that may be assigned into (logged as events)
         self.pure_ext = set()       # external callables modelled as uninterpreted *functions* of their arguments
         self.no_raise_ext = set()   # pure externals additionally assumed never to raise (listed in the evidence)
         self.prop_meta = {}         # property id -> dict(bounded=[...], bounded_in_quick=str, not_decided=[...], assumptions=[...], trusted=[...])
